@@ -286,6 +286,11 @@ pub fn run_c01(ctx: &Ctx, rep: &mut Report) {
     if crate::props::wide::maybe_run(ctx, rep, crate::props::wide::Role::Model, 0, 8) {
         return;
     }
+    // lengths and bytes of very long streams, live and reopened (version 4 around 2^32,
+    // version 3 at 2 GiB and a little): shards 10-15
+    if crate::props::huge::maybe_run(ctx, rep, "beyond 4 GiB", 10) {
+        return;
+    }
     let mut i = 0;
     while let Some(case) = ctx.next_case(&mut i) {
         let mut rng = ctx.case_rng(case);
